@@ -11,7 +11,7 @@ from vlib import content as C
 
 from . import corecommon as cc
 
-PROPS = ["MxlVerif.Props.C02"]
+PROPS = ["MxlVerif.Props.C02", "MxlVerif.Props.C01Tie"]
 QUERIES = [["init"], ["args", None, "0"]]
 
 
@@ -20,10 +20,11 @@ def setup(ctx):
     ctx.shrinker = cc.shrink_case
     ctx.rule = (
         "exhaustive: every dependency graph on <=3 components, each requiring any subset of {the 3 provided names, "
-        "1 available parameter, 1 missing name} (32^3 graphs), in declaration orders (all 6 in thorough, 2 per graph "
-        "+ all 6 on every 16th graph in quick), component kinds (derived / IA parameter / reaction / 2-output surrogate) "
+        "1 available parameter, 1 missing name} (32^3 graphs), in declaration orders (all 6 in thorough; quick: 1 per labelled "
+        "graph cycling through all six + all 6 on every 16th graph), component kinds (derived / IA parameter / reaction / 2-output surrogate) "
         "assigned by a fixed hash of the graph index; sampled: chains, reverse chains (worst case n(n+1)/2 iterations) up "
-        "to n=40, diamonds, k-cycles with tails, self-loops, missing names, mixed kinds. distinct = distinct (graph, order); "
+        "to n=40, diamonds, k-cycles with tails, self-loops, missing names, mixed kinds; re-wiring through update_derived / "
+        "update_reaction and data sets updated / removed through update_data / remove_data between two rounds of queries. distinct = distinct (graph, order); "
         "non-trivial = at least one dependency edge"
     )
     ctx.assumptions += ["exception messages are parsed only for the names a MissingDependenciesError lists"]
@@ -140,6 +141,39 @@ def rewired(rng, n_cases):
     return out
 
 
+def data_edits(rng, n_cases):
+    """a graph in which components name a data set; ask, then update_data / remove_data through the API and ask
+    again: after a removal whatever names the data set is missing, after an update the new value is used"""
+    out = []
+    for _ in range(n_cases):
+        n = rng.randint(1, 5)
+        reqs = [rng.sample([f"c{j}" for j in range(i)] + ["p", "x"], rng.randint(0, min(2, i + 2))) for i in range(n)]
+        for i in rng.sample(range(n), rng.randint(1, min(2, n))):
+            reqs[i] = reqs[i] + ["dat"]
+        kinds = [rng.choice("dqrs") for _ in range(n)]
+        order = list(range(n))
+        rng.shuffle(order)
+        content = mk_content(reqs, kinds, order)
+        content["data"] = [["dat", "3"]]
+        edits = [rng.choice([["remove_data", "dat", None], ["update_data", "dat", str(rng.choice([1, 5]))]])]
+        out.append({"content": content, "queries": QUERIES, "decl_seed": rng.randrange(1 << 30), "edit": edits,
+                    "shape": "data_" + edits[0][0]})
+    return out
+
+
+def _tally(ctx, q, r):
+    """distribution of what the generator reaches: query kind x outcome class of the real code"""
+    if isinstance(r, dict) and "err" in r:
+        cls = r["err"][0]
+    elif isinstance(r, dict) and "ok" in r:
+        cls = "ok"
+    else:
+        cls = "parts"
+    d = ctx.extra_cov.setdefault("reached_outcomes", {})
+    key = f"{q[0]}:{cls}"
+    d[key] = d.get(key, 0) + 1
+
+
 def judge_case(ctx, case, R, M, S):
     if any(s == "inexact" for s in S):
         return
@@ -149,6 +183,7 @@ def judge_case(ctx, case, R, M, S):
     nq = len(case["queries"])
     for i in range(len(R)):
         q = case["queries"][i % nq]
+        _tally(ctx, q, R[i])
         sub = {"content": case["content"], "queries": [q], "decl_seed": case.get("decl_seed", 0)}
         if i >= nq:
             sub["edit"] = case["edit"]
@@ -173,7 +208,9 @@ def run(ctx):
         if thorough or idx % 16 == 0:
             orders = perms
         else:
-            orders = [perms[idx % 6], perms[(idx // 6 + 3) % 6]]
+            # every labelled graph is enumerated, so one order per graph (cycling through all six) already meets
+            # every (unlabelled graph, declaration order) pair
+            orders = [perms[(idx + idx // 6) % 6]]
         for o in orders:
             batch.append({"content": mk_content(reqs, kinds, list(o)), "queries": QUERIES, "decl_seed": idx,
                           "shape": "exh3"})
@@ -204,9 +241,10 @@ def run(ctx):
             run_batch(ctx, batch)
         ctx.extra_cov.setdefault("exhaustive_strata", []).append("all 22^4 graphs on 4 components with <=2 requirements each x 2 orders")
     ctx.exhaustive = False  # the sampled stratum below is not exhaustive
-    ctx.extra_cov.setdefault("exhaustive_strata", []).insert(0, "all 32768 graphs on <=3 components" + (" x all 6 orders" if thorough else " x 2 orders (all 6 on 1/16)"))
+    ctx.extra_cov.setdefault("exhaustive_strata", []).insert(0, "all 32768 graphs on <=3 components" + (" x all 6 orders" if thorough else " x 1 order per labelled graph, cycling (all 6 on 1/16)"))
     run_batch(ctx, sampled(ctx.rng, ctx.n(1500, 40000)))
     run_batch(ctx, rewired(ctx.rng, ctx.n(600, 10000)))
+    run_batch(ctx, data_edits(ctx.rng, ctx.n(400, 5000)))
     if thorough:
         # long chains declared back to front / shuffled: the iteration budget must cover n(n+1)/2
         big = []
